@@ -45,13 +45,13 @@ type issueCtx struct {
 type c06 struct {
 	// midKey: the signing key the storage rotated to while the current step's requests were being served (nil: none)
 	midKey *world.SignKey
-	w    *world.World
-	o    *kernel.Outcome
-	step int
-	b    *world.Browser
-	ks   oidc.KeySet // the RP's real remote key set over the simulated network
-	pool []*grantedToken
-	keyN int
+	w      *world.World
+	o      *kernel.Outcome
+	step   int
+	b      *world.Browser
+	ks     oidc.KeySet // the RP's real remote key set over the simulated network
+	pool   []*grantedToken
+	keyN   int
 }
 
 func (c *c06) viol(rule, site, format string, a ...any) {
